@@ -14,13 +14,14 @@ MANIFEST_ENTRY = {
                 "transcribed pos_to_byte_index returns the UTF-8 length of the prefix the LSP position denotes (UTF-16 columns, "
                 "\\n, \\r\\n and \\r line ends, column past line end = line end, line past the end = document end), and "
                 "incremental_update never panics and yields exactly the client's copy whenever no range has its start after its end "
-                "(C28_full), for histories of any length with increasing versions (C28_history); the model is tied to the Rust code by "
+                "(C28_full), for histories of any length with increasing versions (C28_history), starting from a didOpen that replaces "
+                "whatever entry the server held (C28_open, C28_session); the model is tied to the Rust code by "
                 "correspondence on generated edit histories over ASCII/BMP/astral documents and by an end-to-end stream through the fake client."},
     "level_note": "trusted: Lean kernel + {propext, Quot.sound, Classical.choice}; the LSP semantics (Spec.offset/apply) is a hand-written "
                   "specification, cross-checked by the proved round trip with the scanned position of an offset (C28_spec_roundtrip) and "
                   "monotonicity (C28_offset_mono); String::replace_range and char::len_utf8/len_utf16 are modelled (validated on every case); "
                   "the transcription is checked by differential runs, not verified; the lexer run inside update(), quick_check_file before "
-                  "the update, JSON deserialisation, didClose/re-open version numbering and u32 overflow of line/column counters are outside "
+                  "the update, JSON deserialisation and u32 overflow of line/column counters are outside "
                   "the model (only exercised by the end-to-end stream); 'keeps running' end-to-end = no panic in dispatch and a later hover "
                   "request is answered.",
     "technique": "Lean 4 proof (loop invariant of the position scan against a line-recursive specification, byte/char prefix lemmas, "
@@ -36,7 +37,7 @@ def nontrivial(row):
 def _distribution(rows):
     d = {"cases": len(rows), "e2e_cases": 0, "with_bmp": 0, "with_astral": 0, "with_crlf": 0, "with_lone_cr": 0, "multi_change_note": 0,
          "full_replacement": 0, "empty_change_list": 0, "col_idiom_ge_99": 0, "impl_crash": 0, "notes_total": 0, "changes_total": 0,
-         "probes_total": 0, "empty_document": 0, "doc_ends_multibyte": 0}
+         "probes_total": 0, "empty_document": 0, "doc_ends_multibyte": 0, "preloaded_from_disk": 0}
     for r in rows:
         inp, impl = r[1], r[2]
         if inp.startswith("(e2e)"):
@@ -66,7 +67,9 @@ def _distribution(rows):
         m = re.search(r"\(probes((?: \(\d+ \d+\))*)\)", inp)
         if m:
             d["probes_total"] += m.group(1).count("(")
-        m = re.match(r"(?:\(e2e\) )?\(open -?\d+ \"((?:[^\"\\]|\\.)*)\"", inp)
+        if "(disk " in inp:
+            d["preloaded_from_disk"] += 1
+        m = re.search(r"\(open -?\d+ \"((?:[^\"\\]|\\.)*)\"", inp)
         if m:
             if m.group(1) == "":
                 d["empty_document"] += 1
@@ -152,6 +155,14 @@ def _fails(ctx, bindir, case_txt):
 
 def shrink(ctx, v, bindir):
     """delta-debugging on the history: fewer notes, fewer changes, shorter texts — keeping a spec violation"""
+    try:
+        return _shrink(ctx, v, bindir)
+    except Exception as e:  # a failing shrinker must never hide the unshrunk replay
+        core.log(f"[shrink] gave up: {e!r}")
+        return None
+
+
+def _shrink(ctx, v, bindir):
     cid, inp = v[0], v[1]
     items = _tok(inp)
     budget = [120]
@@ -164,7 +175,9 @@ def shrink(ctx, v, bindir):
 
     cur = items
     # 1. leave the end-to-end path if the hooked functions alone reproduce it; drop probes; truncate notes
-    for cand in ([x for x in cur if x != ["e2e"]], [x for x in cur if not (isinstance(x, list) and x and x[0] == "probes")]):
+    for drop in (lambda x: x == ["e2e"], lambda x: isinstance(x, list) and x and x[0] == "probes",
+                 lambda x: isinstance(x, list) and x and x[0] == "disk"):
+        cand = [x for x in cur if not drop(x)]
         if cand != cur and ok(cand):
             cur = cand
     changed = True
@@ -193,6 +206,8 @@ def shrink(ctx, v, bindir):
             targets = []
             if x[0] == "open":
                 targets.append((None, 2))
+            if x[0] == "disk":
+                targets.append((None, 1))
             if x[0] == "note":
                 for j in range(2, len(x)):
                     targets.append((j, len(x[j]) - 1))
@@ -226,6 +241,14 @@ def search_more(ctx, res, proof, bindir):
     """model/implementation disagreement (or broken proof) without a spec violation among the generated cases: look further —
     more seeds, and the disagreeing cases' neighbourhood (the same histories with conformant versions) — for an input on which
     the implementation violates the LSP semantics"""
+    try:
+        return _search_more(ctx, res, proof, bindir)
+    except Exception as e:
+        core.log(f"[search_more] gave up: {e!r}")
+        return None
+
+
+def _search_more(ctx, res, proof, bindir):
     cands = []
     for d in res.disagree[:20]:
         items = _tok(d[1])
@@ -265,13 +288,15 @@ def run(ctx):
                        "full replacement) over documents of 0..6 lines mixing ASCII, BMP (2- and 3-byte) and astral characters, \\n / \\r\\n / "
                        "\\r line ends, documents ending in a multi-byte character; positions: exact boundaries, line end, past line end "
                        "(+1..3, 99, 65535, 2^32-1), line past the end, inside a surrogate pair, reversed ranges and stale versions (rare, "
-                       "non-conformant: model tie only); every position is chosen in the copy the real code holds at that point; plus probes "
+                       "non-conformant: model tie only); 1 in 8 documents was already loaded from disk by the server (same or other "
+                       "text) before the client opens it; every position is chosen in the copy the real code holds at that point; plus probes "
                        "of pos_to_byte_index; plus an end-to-end stream through bind_fake_client. distinct by input; non-trivial = has a ranged "
                        "change and a non-ASCII character")
     ctx.assumptions = ["documents shorter than 2^32 lines / UTF-16 units per line (u32 counters are modelled as Nat)",
                        "the client is LSP-conformant: versions strictly increase, range start is not after range end (other inputs are "
                        "tied to the model but the specification makes no demand on them)",
-                       "one didOpen per document (didClose / re-open with a smaller version is not part of the modelled history)",
+                       "one didOpen per document in a generated history (didClose is not handled by the server at all; a re-open is "
+                       "covered by theorem C28_open: didOpen replaces whatever entry exists)",
                        "positionEncoding is UTF-16 (the only encoding the server announces)"]
 
     def post(ctx, rows, res, bindir):
